@@ -171,6 +171,7 @@ class StreamModel:
         self.nexc = 0
         self.other: Optional['StreamModel'] = None
         self.eof_seen = False
+        self.deferred: Optional[Violation] = None
 
     # -- helpers ----------------------------------------------------------
 
@@ -192,6 +193,11 @@ class StreamModel:
     def fail(self, clause, op, detail, sig=None):
         raise Violation(clause, '%s %s: %s' % (self.name, op, detail),
                         sig or '%s:%s' % (clause, op[0]))
+
+    def defer(self, clause, op, detail, sig) -> None:
+        if self.deferred is None:
+            self.deferred = Violation(clause, '%s %s: %s' %
+                                      (self.name, op, detail), sig)
 
     def take(self, n: int) -> None:
         self.off += n
@@ -243,6 +249,14 @@ class StreamModel:
                     if v != r:
                         self.fail('result', op, 'read(-1) returned %d units,'
                                   ' %d up to %r' % (len(v), len(r), t))
+                elif not v and self.enc:
+                    # reported once at the end of the case so that the rest
+                    # of the program is still checked
+                    self.defer('result', op, 'read(%d) returned an empty '
+                               'str with %d units left and no EOF (a packet '
+                               'holding only part of a character was '
+                               'delivered as data)' % (n, len(r)),
+                               'read:empty-before-eof:text')
                 elif not v or len(v) > n or not r.startswith(v):
                     self.fail('result', op, 'read(%d) returned %d units; '
                               'prefix=%s' % (n, len(v), r.startswith(v)))
@@ -291,14 +305,21 @@ class StreamModel:
                 v = self.typed(op, out[1])
 
                 if e is None or v != r[:e]:
-                    sig = None
                     if overlapping(spec) and e is not None and \
                             r.startswith(v) and len(v) > e and \
                             any(v.endswith(s) for s in spec[1]):
-                        sig = 'until:overlapping-separators'
+                        # known: leftmost-regex match instead of the first
+                        # separator to complete; depends on the chunking
+                        self.defer('result', op, 'returned %d units although '
+                                   'a separator already ends at %d (the '
+                                   'result depends on how the data was '
+                                   'split into packets)' % (len(v), e),
+                                   'until:overlapping-separators')
+                        self.take(len(v))
+                        return
                     self.fail('result', op, 'returned %d units, earliest '
                               'separator ends at %r of %d' %
-                              (len(v), e, len(r)), sig)
+                              (len(v), e, len(r)))
                 self.take(e)
                 return
 
@@ -484,6 +505,12 @@ def run_script(case, enc, stdout, stderr, chan):
         if case.get('hw') is not None:
             chan.set_write_buffer_limits(high=case['hw'])
 
+        if case.get('mode') == 'seq' and err:
+            # nobody reads stderr until the end: it has to be in the window
+            # before stdout data so that stdout readers see the window fill
+            stderr.write(conv(enc, err))
+            pos['e'] = len(err)
+
         for act in case['script']:
             if act[0] in 'oe':
                 src = out if act[0] == 'o' else err
@@ -556,10 +583,14 @@ def make_pair(case, body, server_api: str, **sopts) -> Pair:
     return Pair(sopts)
 
 
-def finish_case(h, labels, nontrivial_labels) -> CaseResult:
+def finish_case(h, labels, nontrivial_labels, models=()) -> CaseResult:
     if h.loop_errors:
         raise Violation('loop-error', repr(h.loop_errors[0])[:600],
                         'loop-error')
+
+    for model in models:
+        if model.deferred is not None:
+            raise model.deferred
 
     return CaseResult(sorted(labels), bool(labels & nontrivial_labels))
 
@@ -726,7 +757,7 @@ def run_reader(case) -> CaseResult:
         h.pump(chunker)
         run_hang(h, chan.wait_closed(), chunker, 'wait_closed')
         check_exit(case, chan, 'reader')
-        return finish_case(h, labels, NT_READER)
+        return finish_case(h, labels, NT_READER, [mo, me])
     finally:
         pair.close()
 
@@ -738,6 +769,11 @@ async def drain_coro(reader, model, enc, how, labels, eof_check):
         labels.add('final-iter')
         async for line in reader:
             model.check(['line'], ('ret', line))
+
+            if not line:
+                # see below
+                labels.add('empty-line-before-eof')
+                await asyncio.sleep(0)
 
         if model.done():
             model.eof_seen = True
@@ -842,7 +878,7 @@ def reader_strategy(tier: str):
         if mode == 'seq':
             # a stream nobody reads must fit the window beside stdout
             err = draw(st.text(st.sampled_from(alpha),
-                               max_size=max(0, min(win // 2 - 1, 20))))
+                               max_size=max(0, min(win - 1, 12))))
         else:
             err = draw(stream_strategy(alpha, pool, max_tokens // 2))
 
